@@ -123,17 +123,23 @@ partial def depthAll : List Instr → Nat
 end
 
 mutual
-/-- the narrow causes of the three known departures (see Spec.lean, docs/C27.md) -/
-partial def kfTags (sigs : Sigs) : Instr → List String
-  | .frameDefinition es => if (es.map exprRegions).flatten.isEmpty then [] else ["kf:C27-defframe-attribute-refs"]
+/-- distribution tags for the three shapes that used to be mis-reported (fixed by 9c5e66f, 595a980,
+8044518): shows that every run still exercises them -/
+partial def shapeTags (sigs : Sigs) : Instr → List String
+  | .frameDefinition es => if (es.map exprRegions).flatten.isEmpty then [] else ["shape:defframe-attribute-refs"]
   | .gateDefinition (.pauliSum es) =>
-      if (es.map exprRegions).flatten.isEmpty then [] else ["kf:C27-paulisum-term-refs"]
-  | .call name args => if callArityOk sigs name args then [] else ["kf:C27-call-extra-arguments"]
-  | .calibrationDefinition _ b | .circuitDefinition b | .measureCalibrationDefinition b => kfTagsAll sigs b
+      if (es.map exprRegions).flatten.isEmpty then [] else ["shape:paulisum-term-refs"]
+  | .call name args => match sigs.lookup name with
+      | none => ["shape:call-unknown"]
+      | some sig =>
+        if args.length > sig.params.length + retSlots sig then ["shape:call-extra-arguments"]
+        else if args.length < sig.params.length + retSlots sig then ["shape:call-missing-arguments"]
+        else ["shape:call-exact-arity"]
+  | .calibrationDefinition _ b | .circuitDefinition b | .measureCalibrationDefinition b => shapeTagsAll sigs b
   | _ => []
-partial def kfTagsAll (sigs : Sigs) : List Instr → List String
+partial def shapeTagsAll (sigs : Sigs) : List Instr → List String
   | [] => []
-  | j :: js => kfTags sigs j ++ kfTagsAll sigs js
+  | j :: js => shapeTags sigs j ++ shapeTagsAll sigs js
 end
 
 def bucket (n : Nat) : String := if n ≥ 4 then "4+" else toString n
@@ -144,13 +150,13 @@ def handle (inp out : Sexp) : CaseResult :=
     match ss.mapM decSig, decInstr i, decOut out with
     | some sigs, some (instr, kind), some (o, knownErr) =>
       let m := memoryAccesses sigs instr
+      let agree := agreeOut m o && knownErr
       let specOk := checkB sigs instr o
-      let regular := regularB sigs instr
       let (nr, nw, nc) := match o with
         | .ok a => (a.reads.length, a.writes.length, a.captures.length)
         | .error _ => (0, 0, 0)
       let exprRefs := !((ownExprs instr).map exprRegions).flatten.isEmpty
-      { agree := agreeOut m o && knownErr
+      { agree := agree
         specOk := specOk
         nontrivial := match o with
           | .ok a => !(a.reads.isEmpty && a.writes.isEmpty && a.captures.isEmpty)
@@ -159,10 +165,7 @@ def handle (inp out : Sexp) : CaseResult :=
                  s!"depth{bucket (depthOf instr)}"] ++
                 (match o with | .ok _ => ["ok"] | .error _ => ["error"]) ++
                 (if exprRefs then ["expr-refs"] else []) ++
-                (if regular then ["regular"] else ["irregular"]) ++
-                -- a known-finding tag is only attached to a case that actually fails, and only when
-                -- its narrow cause is present in the input
-                (if specOk then [] else (kfTags sigs instr).eraseDups)
+                (shapeTags sigs instr).eraseDups
         detail := s!"model={repr m} specReads={specReads sigs instr} specWrites={specWrites sigs instr} specCaptures={specCaptures instr} impl={out}" }
     | _, _, _ => .bad s!"undecodable case {inp} {out}"
   | _ => .bad s!"undecodable input {inp}"
